@@ -31,5 +31,10 @@ cnt = {}
 for v in now.values():
     cnt[v['status']] = cnt.get(v['status'], 0) + 1
 out += ['', 'Now (own property check only): ' + ', '.join('%d %s' % (v, k) for k, v in sorted(cnt.items())) + '.']
+NOTES = ['', 'The 13 changes that the check of their own property does not report now:',
+         '* caught by the check of the property they really break: C01-11 (C14 forked streams), C02-12 and C02-8 (C10 deep copies / histories), C10-9 (C04 rate reconfiguration), C13-4 (C08 operators);',
+         '* deliberately not judged (DESIGN.md 8.4): C04-11, C13-12, C14-12 (behaviour after copy.copy), C09-10 (python -O only), C09-11 (the caller rewrites the message during one iteration), C14-11 (the caller saves and re-installs internal chaining words), C01-12 (two threads; explored by C10 nested-calls, a verdict only with VERIF_JUDGE_NESTED=1);',
+         '* missed: C02-7 (needs two DES keys whose CRC-32 collide - a collision of a function the change itself chose).']
+out += NOTES
 open('/verif/seeded/MATRIX.md', 'w').write('\n'.join(out) + '\n')
 print(out[-1])
